@@ -108,6 +108,12 @@ def build_op(spec: dict):
         return getattr(ops, t)(spec.get("max", 0.05), mask)
     if t == "sum":
         items = [build_op(s) for s in spec["items"]]
+        if spec.get("assoc") == "right":
+            # a + (b + (c + ...)): the other parenthesisation of the same expression
+            out = items[-1]
+            for it in reversed(items[:-1]):
+                out = it + out
+            return out
         out = items[0]
         for it in items[1:]:
             out = out + it
@@ -315,6 +321,12 @@ def build_move(spec: dict, env: MoveEnv, path: str):
         return env.named[spec["of"]]
     if t == "sum":
         items = [build_move(s, env, f"{path}.{i}") for i, s in enumerate(spec["items"])]
+        if spec.get("assoc") == "right":
+            # a + (b + (c + ...)): the other parenthesisation of the same expression
+            out = items[-1]
+            for it in reversed(items[:-1]):
+                out = it + out
+            return out
         out = items[0]
         for it in items[1:]:
             out = out + it
